@@ -216,6 +216,8 @@ def _coerce_scalar_json(sm, name, v):
             raise Reject("ID")
         return str(v)
     if S.kind_of(sm, name) == "scalar":
+        if sm["types"][name].get("impl") == "sdl":
+            raise Unsupported("scalar with the library's default coercion")
         try:
             return S.date_parse(v)
         except Exception:
@@ -340,6 +342,8 @@ def coerce_literal(sm, t, v, variables):
             raise Reject("ID literal")
         return str(v[1])
     if k == "scalar":
+        if sm["types"][name].get("impl") == "sdl":
+            raise Unsupported("scalar with the library's default literal coercion")
         if v[0] != "string":
             raise Reject("custom scalar literal")
         return _coerce_scalar_json(sm, name, v[1])
@@ -696,7 +700,7 @@ def execute(sm, doc, locs=None, world=None, opname=None, variables=None, valueke
 # world enumeration (the E1 idiom over the reference's own trace)
 
 
-def enumerate_worlds(sm, doc, locs, opname, variables, max_faults, max_worlds=None):
+def enumerate_worlds(sm, doc, locs, opname, variables, max_faults, max_worlds=None, alt_filter=None):
     """Every world reachable by <= max_faults departures from the default outcome, each exactly once.
     Yields (world dict, reference Result)."""
     stack = [({}, -1)]
@@ -718,6 +722,8 @@ def enumerate_worlds(sm, doc, locs, opname, variables, max_faults, max_worlds=No
             if key in world:
                 continue
             for alt in options[1:]:
+                if alt_filter is not None and not alt_filter(key, alt):
+                    continue
                 w2 = dict(world)
                 w2[key] = alt
                 children.append((w2, j))
